@@ -127,18 +127,13 @@ def get_real_bipartite_numerical_range(mat, kind='min', method='eigen'):
         ret = get_matrix_numerical_range_along_direction(mat+1j*mat_pt, np.pi/4, kind)[0]/np.sqrt(2)
     elif method=='eigen':
         assert np.abs(mat - mat.T).max() < 1e-10, 'matrix must be symmetric when method="eigen"'
+        # the matrices are dense: ARPACK (eigsh) fails on the zero matrix ("starting vector is zero") and draws its start vector from fresh entropy
         if kind=='min':
-            if mat.shape[0]>=5: #5 is chosen intuitively
-                hf0 = lambda p: -scipy.sparse.linalg.eigsh(p*mat+(1-p)*mat_pt, k=1, which='SA', return_eigenvectors=False)[0]
-            else:
-                hf0 = lambda p: -np.linalg.eigvalsh(p*mat+(1-p)*mat_pt)[0]
+            hf0 = lambda p: -np.linalg.eigvalsh(p*mat+(1-p)*mat_pt)[0]
             theta_optim = scipy.optimize.minimize_scalar(hf0)
             ret = -theta_optim.fun
         if kind=='max':
-            if mat.shape[0]>=5: #5 is chosen intuitively
-                hf0 = lambda p: scipy.sparse.linalg.eigsh(p*mat+(1-p)*mat_pt, k=1, which='LA', return_eigenvectors=False)[0]
-            else:
-                hf0 = lambda p: np.linalg.eigvalsh(p*mat+(1-p)*mat_pt)[-1]
+            hf0 = lambda p: np.linalg.eigvalsh(p*mat+(1-p)*mat_pt)[-1]
             theta_optim = scipy.optimize.minimize_scalar(hf0)
             ret = theta_optim.fun
     return ret
